@@ -180,8 +180,8 @@ func (s *stubFn) ProcessBuiltinFunction(_, _ vmcommon.UserAccountHandler, _ *vmc
 	return nil, nil
 }
 func (s *stubFn) SetNewGasConfig(*vmcommon.GasCost) {}
-func (s *stubFn) IsActive() bool                   { return true }
-func (s *stubFn) IsInterfaceNil() bool             { return s == nil }
+func (s *stubFn) IsActive() bool                    { return true }
+func (s *stubFn) IsInterfaceNil() bool              { return s == nil }
 
 // runMix executes a mix on real objects and returns the recorded history.
 func runMix(mx *cMix) []porcupine.Operation {
@@ -563,7 +563,19 @@ func liveCharge(g map[string]uint64, fn string, args [][]byte) uint64 {
 	return 0
 }
 
+// c19Live: every goroutine works on accounts and tokens of its own, so WHETHER each of its operations succeeds must not
+// depend on what the other goroutines, the schedule flipper or the notifier do: the outcomes are compared with a
+// sequential baseline run of the same operation lists (no statement demands that an operation succeeds).
 func c19Live(lc *liveCase) (string, string, int) {
+	base, sig, msg, _ := c19LiveRun(lc, false, nil)
+	if sig != "" {
+		return "live/baseline/" + sig, "sequential baseline run: " + msg, 0
+	}
+	_, sig, msg, n := c19LiveRun(lc, true, base)
+	return sig, msg, n
+}
+
+func c19LiveRun(lc *liveCase, concurrent bool, baseline [][]bool) ([][]bool, string, string, int) {
 	gasA, gasB := DistinctGas(1), DistinctGas(1)
 	// B differs from A in every entry and is not a multiple of it
 	i := uint64(0)
@@ -580,7 +592,7 @@ func c19Live(lc *liveCase) (string, string, int) {
 	fa, fb := flattenGas(gasA), flattenGas(gasB)
 	sh, err := NewShard(ShardConfig{NShards: 1, Self: 0, Gas: gasA, ActivationEpoch: 1})
 	if err != nil {
-		return "live/factory", err.Error(), 0
+		return nil, "live/factory", err.Error(), 0
 	}
 	w := &World{Shards: []*Shard{sh}}
 	nthreads := len(lc.Threads)
@@ -605,7 +617,7 @@ func c19Live(lc *liveCase) (string, string, int) {
 		}
 		for _, c := range setup {
 			if err := must(c); err != nil {
-				return "live/setup", err.Error(), 0
+				return nil, "live/setup", err.Error(), 0
 			}
 		}
 	}
@@ -621,88 +633,121 @@ func c19Live(lc *liveCase) (string, string, int) {
 	start := make(chan struct{})
 	var wg sync.WaitGroup
 	var stop int32
+	runThread := func(t int) {
+		p := ps[t]
+		for j, op := range lc.Threads[t] {
+			blob := make([]byte, op.Size)
+			for x := range blob {
+				blob[x] = byte('a' + x%26)
+			}
+			var c *Call
+			switch op.Kind {
+			case "skv":
+				c = &Call{Fn: vmcommon.BuiltInFunctionSaveKeyValue, Caller: p.a, Rcv: p.a, Args: hbs([]byte(fmt.Sprintf("key-%d-%d", t, j)), append([]byte("v"), blob...))}
+			case "create":
+				c = &Call{Fn: vmcommon.BuiltInFunctionESDTNFTCreate, Caller: p.a, Rcv: p.a, Args: hbs(p.ntok, []byte{1}, blob, []byte{}, []byte("h"), blob, []byte("u"))}
+			case "adduri":
+				c = &Call{Fn: vmcommon.BuiltInFunctionESDTNFTAddURI, Caller: p.a, Rcv: p.a, Args: hbs(p.ntok, []byte{1}, append([]byte("u"), blob...))}
+			case "update":
+				c = &Call{Fn: vmcommon.BuiltInFunctionESDTNFTUpdateAttributes, Caller: p.a, Rcv: p.a, Args: hbs(p.ntok, []byte{1}, append([]byte("a"), blob...))}
+			case "mint":
+				c = &Call{Fn: vmcommon.BuiltInFunctionESDTLocalMint, Caller: p.a, Rcv: p.a, Args: hbs(p.ftok, []byte{1})}
+			case "localburn":
+				c = &Call{Fn: vmcommon.BuiltInFunctionESDTLocalBurn, Caller: p.a, Rcv: p.a, Args: hbs(p.ftok, []byte{1})}
+			case "burn":
+				c = &Call{Fn: vmcommon.BuiltInFunctionESDTBurn, Caller: p.a, Rcv: sys, Args: hbs(p.ftok, []byte{1})}
+			case "addq":
+				c = &Call{Fn: vmcommon.BuiltInFunctionESDTNFTAddQuantity, Caller: p.a, Rcv: p.a, Args: hbs(p.ntok, []byte{1}, []byte{2})}
+			case "nftburn":
+				c = &Call{Fn: vmcommon.BuiltInFunctionESDTNFTBurn, Caller: p.a, Rcv: p.a, Args: hbs(p.ntok, []byte{1}, []byte{1})}
+			case "nfttransfer":
+				c = &Call{Fn: vmcommon.BuiltInFunctionESDTNFTTransfer, Caller: p.a, Rcv: p.a, Args: hbs(p.ntok, []byte{1}, []byte{1}, p.b)}
+			case "multi":
+				c = &Call{Fn: vmcommon.BuiltInFunctionMultiESDTNFTTransfer, Caller: p.a, Rcv: p.a, Args: hbs(p.b, []byte{2}, p.ftok, []byte{0}, []byte{1}, p.ntok, []byte{1}, []byte{1})}
+			case "freeze":
+				c = &Call{Fn: vmcommon.BuiltInFunctionESDTFreeze, Caller: sys, Rcv: p.b, Args: hbs(p.ntok)}
+			case "unfreeze":
+				c = &Call{Fn: vmcommon.BuiltInFunctionESDTUnFreeze, Caller: sys, Rcv: p.b, Args: hbs(p.ntok)}
+			case "pause":
+				c = &Call{Fn: vmcommon.BuiltInFunctionESDTPause, Caller: sys, Rcv: vmcommon.SystemAccountAddress, Args: hbs([]byte(fmt.Sprintf("XX%02d-cccccc", t)))}
+			case "unpause":
+				c = &Call{Fn: vmcommon.BuiltInFunctionESDTUnPause, Caller: sys, Rcv: vmcommon.SystemAccountAddress, Args: hbs([]byte(fmt.Sprintf("XX%02d-cccccc", t)))}
+			case "setrole":
+				c = &Call{Fn: vmcommon.BuiltInFunctionSetESDTRole, Caller: sys, Rcv: p.b, Args: hbs(p.ftok, []byte(vmcommon.ESDTRoleLocalBurn))}
+			case "unsetrole":
+				c = &Call{Fn: vmcommon.BuiltInFunctionUnSetESDTRole, Caller: sys, Rcv: p.b, Args: hbs(p.ftok, []byte(vmcommon.ESDTRoleLocalBurn))}
+			default:
+				c = &Call{Fn: vmcommon.BuiltInFunctionESDTTransfer, Caller: p.a, Rcv: p.b, Args: hbs(p.ftok, []byte{1})}
+			}
+			c.Gas = ampleGas
+			o := obs{fn: c.Fn, a: liveCharge(fa, c.Fn, args2bytes(c.Args)), b: liveCharge(fb, c.Fn, args2bytes(c.Args))}
+			priced := o.a != 0
+			func() {
+				defer func() { o.pan = recover() }()
+				fn, _ := sh.Container.Get(c.Fn)
+				snd, dst := sh.accountsFor(c)
+				out, err := fn.ProcessBuiltinFunction(snd, dst, layOut(c).in)
+				o.err = err
+				if out != nil {
+					o.consumed = c.Gas - out.GasRemaining
+					if !priced {
+						o.a, o.b = o.consumed, o.consumed // functions without a simple closed-form charge: race / success only
+					}
+				}
+			}()
+			results[t] = append(results[t], o)
+		}
+	}
+	outcomes := func() [][]bool {
+		out := make([][]bool, nthreads)
+		for t, rs := range results {
+			for _, o := range rs {
+				out[t] = append(out[t], o.err == nil && o.pan == nil)
+			}
+		}
+		return out
+	}
+	if !concurrent {
+		for t := 0; t < nthreads; t++ {
+			runThread(t)
+		}
+		for t, rs := range results {
+			for j, o := range rs {
+				if o.pan != nil {
+					return nil, "live/" + o.fn + "/panic", fmt.Sprintf("thread %d op %d (%s) panicked: %v", t, j, o.fn, o.pan), 0
+				}
+			}
+		}
+		return outcomes(), "", "", 0
+	}
+	var execDone int32
+	var execWG sync.WaitGroup
 	for t := 0; t < nthreads; t++ {
 		wg.Add(1)
+		execWG.Add(1)
 		go func(t int) {
 			defer wg.Done()
-			p := ps[t]
+			defer execWG.Done()
 			<-start
-			for j, op := range lc.Threads[t] {
-				blob := make([]byte, op.Size)
-				for x := range blob {
-					blob[x] = byte('a' + x%26)
-				}
-				var c *Call
-				switch op.Kind {
-				case "skv":
-					c = &Call{Fn: vmcommon.BuiltInFunctionSaveKeyValue, Caller: p.a, Rcv: p.a, Args: hbs([]byte(fmt.Sprintf("key-%d-%d", t, j)), append([]byte("v"), blob...))}
-				case "create":
-					c = &Call{Fn: vmcommon.BuiltInFunctionESDTNFTCreate, Caller: p.a, Rcv: p.a, Args: hbs(p.ntok, []byte{1}, blob, []byte{}, []byte("h"), blob, []byte("u"))}
-				case "adduri":
-					c = &Call{Fn: vmcommon.BuiltInFunctionESDTNFTAddURI, Caller: p.a, Rcv: p.a, Args: hbs(p.ntok, []byte{1}, append([]byte("u"), blob...))}
-				case "update":
-					c = &Call{Fn: vmcommon.BuiltInFunctionESDTNFTUpdateAttributes, Caller: p.a, Rcv: p.a, Args: hbs(p.ntok, []byte{1}, append([]byte("a"), blob...))}
-				case "mint":
-					c = &Call{Fn: vmcommon.BuiltInFunctionESDTLocalMint, Caller: p.a, Rcv: p.a, Args: hbs(p.ftok, []byte{1})}
-				case "localburn":
-					c = &Call{Fn: vmcommon.BuiltInFunctionESDTLocalBurn, Caller: p.a, Rcv: p.a, Args: hbs(p.ftok, []byte{1})}
-				case "burn":
-					c = &Call{Fn: vmcommon.BuiltInFunctionESDTBurn, Caller: p.a, Rcv: sys, Args: hbs(p.ftok, []byte{1})}
-				case "addq":
-					c = &Call{Fn: vmcommon.BuiltInFunctionESDTNFTAddQuantity, Caller: p.a, Rcv: p.a, Args: hbs(p.ntok, []byte{1}, []byte{2})}
-				case "nftburn":
-					c = &Call{Fn: vmcommon.BuiltInFunctionESDTNFTBurn, Caller: p.a, Rcv: p.a, Args: hbs(p.ntok, []byte{1}, []byte{1})}
-				case "nfttransfer":
-					c = &Call{Fn: vmcommon.BuiltInFunctionESDTNFTTransfer, Caller: p.a, Rcv: p.a, Args: hbs(p.ntok, []byte{1}, []byte{1}, p.b)}
-				case "multi":
-					c = &Call{Fn: vmcommon.BuiltInFunctionMultiESDTNFTTransfer, Caller: p.a, Rcv: p.a, Args: hbs(p.b, []byte{2}, p.ftok, []byte{0}, []byte{1}, p.ntok, []byte{1}, []byte{1})}
-				case "freeze":
-					c = &Call{Fn: vmcommon.BuiltInFunctionESDTFreeze, Caller: sys, Rcv: p.b, Args: hbs(p.ntok)}
-				case "unfreeze":
-					c = &Call{Fn: vmcommon.BuiltInFunctionESDTUnFreeze, Caller: sys, Rcv: p.b, Args: hbs(p.ntok)}
-				case "pause":
-					c = &Call{Fn: vmcommon.BuiltInFunctionESDTPause, Caller: sys, Rcv: vmcommon.SystemAccountAddress, Args: hbs([]byte(fmt.Sprintf("XX%02d-cccccc", t)))}
-				case "unpause":
-					c = &Call{Fn: vmcommon.BuiltInFunctionESDTUnPause, Caller: sys, Rcv: vmcommon.SystemAccountAddress, Args: hbs([]byte(fmt.Sprintf("XX%02d-cccccc", t)))}
-				case "setrole":
-					c = &Call{Fn: vmcommon.BuiltInFunctionSetESDTRole, Caller: sys, Rcv: p.b, Args: hbs(p.ftok, []byte(vmcommon.ESDTRoleLocalBurn))}
-				case "unsetrole":
-					c = &Call{Fn: vmcommon.BuiltInFunctionUnSetESDTRole, Caller: sys, Rcv: p.b, Args: hbs(p.ftok, []byte(vmcommon.ESDTRoleLocalBurn))}
-				default:
-					c = &Call{Fn: vmcommon.BuiltInFunctionESDTTransfer, Caller: p.a, Rcv: p.b, Args: hbs(p.ftok, []byte{1})}
-				}
-				c.Gas = ampleGas
-				o := obs{fn: c.Fn, a: liveCharge(fa, c.Fn, args2bytes(c.Args)), b: liveCharge(fb, c.Fn, args2bytes(c.Args))}
-				priced := o.a != 0
-				func() {
-					defer func() { o.pan = recover() }()
-					fn, _ := sh.Container.Get(c.Fn)
-					snd, dst := sh.accountsFor(c)
-					out, err := fn.ProcessBuiltinFunction(snd, dst, layOut(c).in)
-					o.err = err
-					if out != nil {
-						o.consumed = c.Gas - out.GasRemaining
-						if !priced {
-							o.a, o.b = o.consumed, o.consumed // functions without a simple closed-form charge: race / success only
-						}
-					}
-				}()
-				results[t] = append(results[t], o)
-			}
+			runThread(t)
 		}(t)
 	}
+	go func() { execWG.Wait(); atomic.StoreInt32(&execDone, 1) }()
 	// the single reconfiguring goroutine, the notifier and two readers
 	wg.Add(1)
 	go func() {
 		defer wg.Done()
 		<-start
-		for i := 0; i < lc.Flips; i++ {
+		// keeps flipping for as long as executions are running (at least lc.Flips times), ending on schedule A
+		for i := 0; i < lc.Flips || atomic.LoadInt32(&execDone) == 0; i++ {
 			if i%2 == 0 {
 				sh.Factory.GasScheduleChange(copyGas(gasB))
 			} else {
 				sh.Factory.GasScheduleChange(copyGas(gasA))
 			}
-			runtime.Gosched()
+			if i%4 == 3 {
+				runtime.Gosched()
+			}
 		}
 	}()
 	wg.Add(1)
@@ -740,27 +785,27 @@ func c19Live(lc *liveCase) (string, string, int) {
 		for j, o := range rs {
 			n++
 			if o.pan != nil {
-				return "live/" + o.fn + "/panic", fmt.Sprintf("goroutine %d op %d (%s) panicked: %v", t, j, o.fn, o.pan), n
+				return nil, "live/" + o.fn + "/panic", fmt.Sprintf("goroutine %d op %d (%s) panicked: %v", t, j, o.fn, o.pan), n
 			}
-			if o.err != nil {
-				return "live/" + o.fn + "/failed", fmt.Sprintf("goroutine %d op %d (%s) on its private account failed under concurrent reconfiguration: %v", t, j, o.fn, o.err), n
+			if ok := o.err == nil; baseline != nil && ok != baseline[t][j] {
+				return nil, "live/" + o.fn + "/outcome-depends-on-concurrency", fmt.Sprintf("goroutine %d op %d (%s) on its private account: success=%v (error %v) under concurrent executions and reconfiguration, success=%v when the same operations run alone", t, j, o.fn, ok, o.err, baseline[t][j]), n
 			}
-			if o.consumed != o.a && o.consumed != o.b {
-				return "live/" + o.fn + "/mixed-schedule-charge", fmt.Sprintf("goroutine %d op %d (%s) consumed %d gas: neither schedule A (%d) nor schedule B (%d) as a whole", t, j, o.fn, o.consumed, o.a, o.b), n
+			if o.err == nil && o.consumed != o.a && o.consumed != o.b {
+				return nil, "live/" + o.fn + "/mixed-schedule-charge", fmt.Sprintf("goroutine %d op %d (%s) consumed %d gas: neither schedule A (%d) nor schedule B (%d) as a whole", t, j, o.fn, o.consumed, o.a, o.b), n
 			}
 		}
 	}
-	return "", "", n
+	return outcomes(), "", "", n
 }
 
 func genLive(rt *rapid.T) *liveCase {
 	lc := &liveCase{Flips: rapid.IntRange(1, 60).Draw(rt, "flips")}
 	n := rapid.SampledFrom([]int{2, 3, 4, 8}).Draw(rt, "live-threads")
 	for i := 0; i < n; i++ {
-		k := rapid.IntRange(1, 12).Draw(rt, "live-nops")
+		k := rapid.IntRange(1, 40).Draw(rt, "live-nops")
 		ops := make([]liveOp, k)
 		for j := range ops {
-			ops[j] = liveOp{Kind: rapid.SampledFrom([]string{"skv", "create", "adduri", "update", "mint", "transfer", "skv", "create", "localburn", "burn", "addq", "nftburn", "nfttransfer", "multi", "freeze", "unfreeze", "pause", "unpause", "setrole", "unsetrole", "adduri", "update"}).Draw(rt, "live-kind"), Size: rapid.SampledFrom([]int{0, 1, 17, 200}).Draw(rt, "live-size")}
+			ops[j] = liveOp{Kind: rapid.SampledFrom([]string{"skv", "create", "adduri", "update", "mint", "transfer", "skv", "create", "adduri", "update", "skv", "create", "adduri", "update", "localburn", "burn", "addq", "nftburn", "nfttransfer", "multi", "freeze", "unfreeze", "pause", "unpause", "setrole", "unsetrole", "adduri", "update"}).Draw(rt, "live-kind"), Size: rapid.SampledFrom([]int{0, 1, 17, 200}).Draw(rt, "live-size")}
 		}
 		lc.Threads = append(lc.Threads, ops)
 	}
